@@ -110,3 +110,90 @@ def or_parts(t):
     if t and t[0] == "bin" and t[1] == "BitOr":
         return or_parts(t[2]) + or_parts(t[3])
     return [t]
+
+
+def path_load(crate, base_term, chain, epoch=0):
+    """load of (*base).f1.f2…; chain = [(adt_suffix, field), …]"""
+    pt = ("deref", base_term)
+    for adt_suffix, field in chain:
+        pt = ("fld", pt, field, crate.adt(adt_suffix)["path"])
+    return ("load", pt, epoch)
+
+
+def loads_of(row, field, of_suffix=None):
+    """all load terms of `.field` that carry a constraint or appear in atoms of this row"""
+    out = set()
+    for t in list(row.facts.c.keys()) + [a for a, _ in row.atoms]:
+        for st in paths.subterms(t):
+            if st and st[0] == "load" and st[1][0] == "fld" and st[1][2] == field and \
+                    (of_suffix is None or st[1][3].endswith(of_suffix)):
+                out.add(st)
+    return out
+
+
+def agg_sites(crate, adt_suffix, variant, fn_filter=None):
+    """[(fn, bb, span)] where a value `adt::variant` is constructed (aggregate or constant)."""
+    out = []
+    for f in crate.fns.values():
+        if fn_filter and not fn_filter(f):
+            continue
+        for bb, blk in enumerate(f.blocks):
+            for s in blk["s"]:
+                if "a" not in s:
+                    continue
+                rv = s["a"][1]
+                if "agg" in rv and rv["agg"].get("kind") == "adt" and rv["agg"]["def"].endswith(adt_suffix) and \
+                        rv["agg"]["variant"] == variant:
+                    out.append((f, bb, s.get("sp")))
+                if "use" in rv and "k" in rv["use"]:
+                    k = rv["use"]["k"]
+                    if k.get("variant") == variant and k.get("ty", "").endswith(adt_suffix.split("::")[-1]):
+                        out.append((f, bb, s.get("sp")))
+    return out
+
+
+def tuple_ops(t):
+    if t and t[0] == "tuple":
+        return t[1]
+    return None
+
+
+def call_res(e):
+    """term denoting the result of call effect `e`"""
+    return ("call", e[1], e[2], e[4])
+
+
+def call_sites(fn, *suffixes):
+    from mir import callee_name
+    out = []
+    for bb, t in fn.calls():
+        n = callee_name(t["call"])
+        if any(paths._sfx(n, s) for s in suffixes):
+            out.append((bb, t))
+    return out
+
+
+def stores_to(E, fn, of_suffix, field):
+    """[(bb, idx, stmt)] statements writing the whole field"""
+    from mir import Place
+    out = []
+    for bb, blk in enumerate(fn.blocks):
+        for i, s in enumerate(blk["s"]):
+            if "a" in s and s["a"][0]["p"]:
+                for c in E.classify(fn, Place(s["a"][0])):
+                    if c[0] == "loc" and c[1].endswith(of_suffix) and c[2] == field:
+                        out.append((bb, i, s))
+    return out
+
+
+def callers_of(crate, *suffixes):
+    from mir import callee_name
+    out = {}
+    for f in crate.fns.values():
+        if f.kind == "promoted":
+            continue
+        for bb, t in f.calls():
+            n = callee_name(t["call"])
+            if any(paths._sfx(n, s) for s in suffixes):
+                out.setdefault(f.name, []).append((bb, t))
+    return out
